@@ -41,11 +41,6 @@ class Const:
 
 # ---------------------------------------------------------------- types
 
-def qt(node):
-    t = node.get("type", {})
-    return t.get("desugaredQualType") or t.get("qualType") or ""
-
-
 def strip_cv(t):
     t = t.strip()
     changed = True
@@ -60,6 +55,14 @@ def strip_cv(t):
                 t = t[:-len(s)].strip()
                 changed = True
     return t
+
+
+def qt(node):
+    t = node.get("type", {})
+    q = t.get("qualType") or ""
+    if strip_cv(q.rstrip("&").strip()) in ("__mmask8", "__mmask16", "__m256i", "__m512i"):
+        return q
+    return t.get("desugaredQualType") or q
 
 
 U64_NAMES = {"uint64_t", "u_int64_t", "unsigned long", "unsigned long long", "Goldilocks::Element",
@@ -187,6 +190,9 @@ INTRIN["__builtin_ia32_psrlqi512"] = ("Avx512.srli_epi64", "vc")
 INTRIN["__builtin_ia32_psllqi512"] = ("Avx512.slli_epi64", "vc")
 INTRIN["__builtin_ia32_selectd_512"] = ("Avx512.selectd_512", "vvv")
 INTRIN["__builtin_ia32_selectq_512"] = ("Avx512.selectq_512", "vvv")
+
+ENUM_CONSTS = {"_MM_CMPINT_EQ": 0, "_MM_CMPINT_LT": 1, "_MM_CMPINT_LE": 2, "_MM_CMPINT_UNUSED": 3,
+               "_MM_CMPINT_NE": 4, "_MM_CMPINT_NLT": 5, "_MM_CMPINT_NLE": 6}
 
 OPERATOR_MAP = {  # free operators of goldilocks_base_field.hpp (checked by gen.py against the header text)
     ("+", 2): "add", ("*", 2): "mul", ("-", 2): "sub", ("/", 2): "div", ("-", 1): "neg", ("+", 1): None,
@@ -360,7 +366,8 @@ class FnCtx:
                 n = n["inner"][0]
                 continue
             if k == "ImplicitCastExpr" and n.get("castKind") in ("LValueToRValue", "NoOp", "ArrayToPointerDecay",
-                                                                  "FunctionToPointerDecay", "ConstructorConversion"):
+                                                                  "FunctionToPointerDecay", "ConstructorConversion",
+                                                                  "BuiltinFnToFnPtr"):
                 n = n["inner"][0]
                 continue
             if k == "CXXConstructExpr" and len(n.get("inner", [])) == 1:
@@ -388,11 +395,17 @@ class FnCtx:
                 if isinstance(v, Const):
                     if dst[0] == "u64":
                         return Const(v.v % (1 << 64))
+                    if dst[0] == "m8":
+                        return Const(v.v % 256)
+                    if dst[0] == "m16":
+                        return Const(v.v % 65536)
                     return v
                 if src[0] == dst[0] or (src[0], dst[0]) in (("u64", "u64"),):
                     return v
                 if src[0] == "bool":
                     return v
+                if src[0] == "u64" and dst[0] == "int" and dst[1] in ("long long", "long", "int64_t"):
+                    return v      # same-width reinterpretation; the value stays a 64-bit pattern
                 raise Unsupported(n, "integral cast %s -> %s of non-constant" % (qt(inner), qt(n)))
             if ck in ("NoOp", "BitCast", "LValueToRValue", "ArrayToPointerDecay", "DerivedToBase"):
                 return self.ex(inner)
@@ -469,7 +482,9 @@ class FnCtx:
                 return self.tr.globals[nm]
             raise Unsupported(n, "unknown global " + str(nm))
         if kind == "EnumConstantDecl":
-            raise Unsupported(n, "enum constant")
+            if rd.get("name") in ENUM_CONSTS:
+                return Const(ENUM_CONSTS[rd["name"]])
+            raise Unsupported(n, "enum constant " + str(rd.get("name")))
         raise Unsupported(n, "reference to " + str(rd.get("name")))
 
     def region(self, n):
